@@ -140,6 +140,10 @@ type Exec struct {
 	nInline    int
 	exitHook   func(outs []Val, suffix string)
 	exitsChecked bool
+	ghostEnv     []map[string]Val
+	beWhole      *T
+	skipSafety   bool // behavior runs: safety/termination/frame obligations are proved in the default run
+	bindsUsed    map[*Bind]bool
 	frameVars    map[string]Val
 	frameTargets [][2]any
 	lastFrame  *frame
@@ -163,10 +167,10 @@ func newExec(prog *Program, pkg *packages.Package, fn *types.Func, fc *FuncContr
 		boxed: map[types.Object]bool{}, closures: map[string]*closure{},
 		builders: map[string]bool{}, dynType: map[string]types.Type{},
 		strLits: map[string]*T{}, unmodelled: map[string]bool{}, stores: map[string]bool{},
-		assumptions: map[string]bool{}, libUsed: map[string]bool{}, heapSort: map[string]Sort{}, untouched: map[*State]bool{},
+		assumptions: map[string]bool{}, libUsed: map[string]bool{}, heapSort: map[string]Sort{}, untouched: map[*State]bool{}, bindsUsed: map[*Bind]bool{},
 	}
 	ex.st = &State{env: map[string]*T{}, pc: True}
-	for _, n := range []string{"errIs", "dyntype", "ifaceI", "ifaceS", "ifaceO", "memB", "memI", "memS", "memO", "wfS", "bytesEq"} {
+	for _, n := range []string{"errIs", "dyntype", "ifaceI", "ifaceS", "ifaceO", "memB", "memI", "memS", "memO", "wfS", "bytesEq", "atB", "atI", "atS", "atO"} {
 		ex.decls[n] = ""
 	}
 	return ex
@@ -256,6 +260,11 @@ func (ex *Exec) assert(kind, label string, goal *T) {
 		return
 	}
 	if goal == True {
+		return
+	}
+	if ex.skipSafety && (kind == "S" || kind == "T" || kind == "O" || kind == "P") {
+		// already discharged in the default verification of this function (which assumes less)
+		ex.assume(goal)
 		return
 	}
 	// name a large antecedent once so that the split parts share it
@@ -395,7 +404,13 @@ func (ex *Exec) memRead(elem types.Type, base, idx *T) *T {
 
 // elemAt returns the i-th element of slice term s.
 func (ex *Exec) elemAt(s *T, elem types.Type, i *T) *T {
-	return ex.memRead(elem, SBase(s), Add(SOff(s), i))
+	// constant index into a literal window: read the array directly
+	if _, ok := i.isNum(); ok && s.Op == "mk-slice" {
+		return ex.memRead(elem, SBase(s), Add(SOff(s), i))
+	}
+	fn, srt := memFn(elem)
+	// at* functions give quantifier patterns without arithmetic: atB(s, i) = memB(sbase s, soff s + i)
+	return App("at"+fn[3:], srt, s, i)
 }
 
 func structName(t types.Type) string {
